@@ -4,6 +4,9 @@ from harness import faults as FT
 from harness import nsrun as N
 from vlib import ns
 
+# private-attribute groups (vlib/layout.py) the obligations of this module depend on
+LAYOUT = ['manager', 'coord', 'task', 'bex', 'tasksem', 'sws']
+
 EXPLANATION = (
     'C07: the real TransferManager over the model executor (engine NS): nothing runs until the symbolic schedule '
     'starts it; the cancellation is injected at a SYMBOLIC point - before the k-th task start of the top-level loop '
